@@ -49,6 +49,18 @@ def gen_shape(rng, recursive):
     return shape
 
 
+def same_reply(a, b, rtol):
+    """replies of two interpreter modes: same keys, same error kind, numbers equal within floating-point
+    tolerance (the reduction order of the BLAS kernels may differ between processes by an ulp)"""
+    if isinstance(a, dict) and isinstance(b, dict):
+        return a.keys() == b.keys() and all(same_reply(a[k], b[k], rtol) for k in a)
+    if isinstance(a, list) and isinstance(b, list):
+        return len(a) == len(b) and all(same_reply(x, y, rtol) for x, y in zip(a, b))
+    if isinstance(a, float) and isinstance(b, float):
+        return close(a, b, rtol)
+    return a == b
+
+
 def close(a, b, rtol):
     if a == b or (a != a and b != b):
         return True
@@ -65,7 +77,7 @@ def run(ctx):
     else:
         modes['python -OO'] = Server(['-OO'])
     try:
-        n = 14 if ctx.quick else 250
+        n = 40 if ctx.quick else 250
         done = 0
         while done < n:
             recursive = ctx.rng.random() < 0.4
@@ -113,13 +125,18 @@ def one_grammar(ctx, shape, recursive, linear, modes):
                         raise RuntimeError(f'o_server under {mode} reports __debug__={r2.get("debug")}')
                     a = {k: v for k, v in rep.items() if k not in ('debug', 'message', 'where')}
                     b = {k: v for k, v in r2.items() if k not in ('debug', 'message', 'where')}
-                    if json.dumps(a, sort_keys=True) != json.dumps(b, sort_keys=True):
+                    if not same_reply(a, b, 1e-4 if dt == 'float32' else 1e-12):
                         jpp = ['in:J_precompute_products'] if 'J_precompute_products' in (rep.get('where') or []) + (r2.get('where') or []) else []
                         ctx.fail(f'result under {mode} differs from the in-process result', dict(case, config=[name, method, jp, dt]), b, a,
                                  tags=['interpreter-mode', mode, name, method, f'j_precompute={jp}'] + jpp)
     # ---- all admissible configurations agree
     if any(isinstance(v, float) and not math.isfinite(v) for v in results[('real', 'fixed-point', False, 'float64')].get('value', [math.inf])):
         ctx.count('infinite-skipped')
+        return
+    if results[('real', 'fixed-point', False, 'float64')].get('warned'):
+        # the monotone iteration had not converged after kmax steps (e.g. X -> X | c, whose least solution is
+        # infinite while the iterates grow linearly): Z is not known to be finite, outside the property's scope
+        ctx.count('fixed-point-not-converged-skipped')
         return
     ref = results[('real', 'fixed-point', False, 'float64')]
     for (name, method, jp, dt), rep in results.items():
